@@ -272,6 +272,10 @@ func streamLike(t types.Type) bool {
 func (fe *FnExec) havocGhost(st *State, obj Term) {
 	for _, name := range sortedKeys(fe.eng.voc.Ghost) {
 		g := fe.eng.voc.Ghost[name]
+		if name == "held" {
+			// assumption: an unknown callee leaves the lock state of this goroutine as it found it
+			continue
+		}
 		if (name == "pos" || name == "wn") && fe.curHavocType != nil && !streamLike(fe.curHavocType) {
 			// assumption: an unknown callee moves the read / write position only of arguments whose static
 			// type is a reader or writer
@@ -446,6 +450,9 @@ func (fe *FnExec) applyContract(fr *frame, st *State, in ssa.Instruction, site s
 		ictx := &EvalCtx{fe: fe, st: st, old: pre, binds: ib, pkg: fe.eng.pkgOfKey(ik), conFile: ic.File}
 		ictx.bindResults(isig, rvs)
 		for _, en := range ic.Ensures {
+			if con.ImplExcept[ik+"#"+en.Label] {
+				continue
+			}
 			fe.assume(tImp(st.pc, ictx.evalBool(en.X)), fmt.Sprintf("ensures %s of %s (implemented by %s)", en.Label, shortKey(ik), shortKey(con.Key)))
 		}
 	}
